@@ -32,6 +32,11 @@ ASSUMPTIONS = [
     "direct oracle evaluates every posted constraint from how the user wrote it",
     "dagbig (33..64 user variables): extendability is checked on the assignments that maximise / minimise each posted "
     "inequality, their one- and two-flip neighbours and random assignments (not all 2^n)",
+    "bigstore (the store grown to 7*10^4 .. 2^21 nodes): the inequalities posted to one manager share no variable and "
+    "each is satisfiable, so the direct oracle enumerates the assignments of the variables of ONE posted inequality "
+    "(the others free): it extends iff it satisfies that inequality; the store is too big for vm_compute, so the model "
+    "is run from the EMPTY store on a sample of the checked posts and only the semantic part of c07_check is used "
+    "(statuses, predicted set of extending assignments; C07_post_store_independent, C07_post_span)",
 ]
 
 OPSTR = {"GE": ">=", "LE": "<=", "GT": ">", "LT": "<", "EQ": "=", "EQ2": "=="}
@@ -297,6 +302,8 @@ def run_impl(case):
     from tools.rect.satmanager import SATManager
     if is_dag(case):
         return run_dag(case)
+    if is_big(case):
+        return run_bigstore(case)
     # process-wide store back to its import-time content, then this case's own earlier history
     del pb.memory[2:]
     pb.memory[0:2] = [0, 1]
@@ -418,6 +425,8 @@ def gsem(obs, names):
 def to_coq(case, obs):
     if is_dag(case):
         return dag_to_coq(case, obs)
+    if is_big(case):
+        return big_to_coq(case, obs)
     posts = glist([gpost(p, n) for p, n in zip(case["posts"], obs["norms"])])
     mem0 = glist([gnode(n) for n in obs["mem0"]])
     o = (f"(mkObs {glist([gnode(n) for n in obs['newmem']])} "
@@ -878,6 +887,236 @@ def dag_simpler(s):
         yield ["post", s[1], False]
 
 # --------------------------------------------------------------------------
+# BIG STORE: the size of the process-wide diagram store (kind bigstore)
+# --------------------------------------------------------------------------
+# Cheapest way to grow tools.rect.pseudobool.memory / mmap through the public API (measured on the pinned tree, one core
+# of a loaded machine): many SMALL inequalities over fresh variables - unit coefficients, 4..12 literals, bound n/2 -
+# give 60-70k new nodes per second (6..42 nodes each; the cost of a node is two serialisations of the remaining term
+# list, linear in its length); 16 / 24 / 32 literals 50k / 42k / 27k nodes/s; few LARGE ones are far worse (16 random
+# coefficients below 10^6: 450 nodes each, 11k nodes/s; 20: 1800 nodes each, 4k nodes/s).  Codifying the diagram in
+# a throw-away manager costs another 20 %.  2^10: 20 ms, 2^16: 1 s, 2^20: 16-20 s, 2^21: 35-40 s.
+BIG_MARKS = [1 << 10, 10 ** 3, 1 << 12, 10 ** 4, 1 << 15, 1 << 16, 10 ** 5, 1 << 17, 1 << 18, 1 << 19, 10 ** 6,
+             1 << 20, 1 << 21, 1 << 22]
+
+
+def is_big(case):
+    return case.get("kind") == "bigstore"
+
+
+def gen_big_case(rng, target, chunk=None):
+    """M1, a long-lived manager, posts non-clause inequalities over fresh variables until its diagrams fill ids
+    2 .. 2*chunk; then the store is grown to `target` nodes by throw-away managers, chunk nodes at a time; after every
+    chunk M1 posts another non-clause inequality; whenever the store has just passed a mark (powers of two and of ten)
+    and after every 16th chunk a FRESH manager posts one as well.  Everything is derived from pyseed."""
+    return {"kind": "bigstore", "target": int(target), "chunk": int(chunk or rng.choice([1500, 2000, 2500, 3000])),
+            "pyseed": rng.randrange(1 << 30)}
+
+
+def big_small_ineq(r, tagname):
+    """a satisfiable non-clause inequality (>=) over 3..5 fresh variables: positive coefficients, both polarities,
+    bound above every coefficient and at most their sum"""
+    n = r.choice([3, 3, 4, 4, 5])
+    cs = [r.choice([1, 1, 2, 2, 3, 4]) for _ in range(n)]
+    if sum(cs) <= max(cs):
+        cs = [1] * n
+    b = r.randint(max(cs) + 1, sum(cs))
+    lt = [[f"{tagname}_{i}", r.random() < 0.7, c] for i, c in enumerate(cs)]
+    return {"k": "ineq", "lt": lt, "rt": [], "b": b, "op": "GE", "decomp": r.random() < 0.3, "via": "ctor"}
+
+
+def big_filler(r, tagname):
+    """an inequality that only serves to grow the store: unit or small coefficients over 6..12 fresh variables"""
+    from tools.rect.pseudobool import Expr, Literal, Term
+    n = r.choice([6, 8, 8, 10, 12])
+    e = Expr()
+    if r.random() < 0.7:
+        for i in range(n):
+            e = e + Literal(f"{tagname}_{i}", r.random() < 0.8)
+        return e >= n // 2
+    tot = 0
+    for i in range(n):
+        c = r.choice([1, 2, 3, 5])
+        tot += c
+        e = e + Term(Literal(f"{tagname}_{i}"), c)
+    return e >= tot // 2
+
+
+def big_table(sm, p):
+    """extendability (PySAT under assumptions on the manager's own solver, after solve()) of every assignment of the
+    variables of one posted inequality"""
+    vs = [t[0] for t in p["lt"]]
+    tt = sm.ttable
+    rows = []
+    for bits in itertools.product([False, True], repeat=len(vs)):
+        assum = [tt[PRE + v] if b else -tt[PRE + v] for v, b in zip(vs, bits)]
+        rows.append([list(bits), bool(sm.solver.solve(assumptions=assum))])
+    return rows
+
+
+def run_bigstore(case):
+    import random
+    from tools.rect import pseudobool as pb
+    from tools.rect.pseudobool import Literal
+    from tools.rect.satmanager import SATManager
+    del pb.memory[2:]
+    pb.memory[0:2] = [0, 1]
+    pb.mmap.clear()
+    r = random.Random(case["pyseed"])
+    target, chunk = case["target"], case["chunk"]
+    st = {"made": 0, "last": len(pb.memory), "shrunk": 0, "peak": len(pb.memory)}
+
+    def account():
+        n = len(pb.memory)
+        if n < st["last"]:
+            st["shrunk"] += 1
+        else:
+            st["made"] += n - st["last"]
+        st["last"] = n
+        st["peak"] = max(st["peak"], n)
+
+    m1 = SATManager()
+    m1_posts, checks, status = [], [], []
+
+    def post(sm, p):
+        for t in p["lt"]:
+            sm.newvar(t[0])
+        s, extra = do_post(sm, p)
+        account()
+        status.append(s)
+        return s, extra
+
+    def check_m1(which, label):
+        ok = bool(m1.solve())
+        for j in which:
+            p, s, extra = m1_posts[j]
+            checks.append({"mgr": "M1", "post": j, "at": label, "memlen": len(pb.memory), "p": p, "status": s,
+                           "norm": extra, "solve": ok, "ext": big_table(m1, p) if ok else None})
+        return ok
+
+    def check_fresh(label, j):
+        sm = SATManager()
+        p = big_small_ineq(r, f"f{j}")
+        s, extra = post(sm, p)
+        ok = bool(sm.solve())
+        model = {t[0]: sm.value(Literal(PRE + t[0])) for t in p["lt"]} if ok else None
+        checks.append({"mgr": "fresh", "post": j, "at": label, "memlen": len(pb.memory), "p": p, "status": s,
+                       "norm": extra, "solve": ok, "ext": big_table(sm, p) if ok else None, "model": model})
+
+    # 1. M1 fills the first ids of the store
+    j = 0
+    while st["made"] < 2 * chunk and j < 4 * chunk:
+        p = big_small_ineq(r, f"m{j}")
+        s, extra = post(m1, p)
+        m1_posts.append((p, s, extra))
+        j += 1
+    n_first = len(m1_posts)
+    check_m1(range(n_first), "first block")
+    # 2. growth by throw-away managers; M1 and fresh managers post again on the way
+    k = 0
+    passed = [m for m in BIG_MARKS if m < len(pb.memory)]
+    while st["made"] < target and k < 100000:
+        goal = st["made"] + chunk
+        tm = SATManager()
+        i = 0
+        while st["made"] < goal and i < 4 * chunk:
+            q = big_filler(r, f"t{k}_{i}")
+            try:
+                if i < 6:
+                    tm.pseudoboolencoding(q, r.random() < 0.1)       # codified by the throw-away manager
+                else:
+                    q.getrobdd(r.random() < 0.1)                     # the diagram only (20 % cheaper)
+            except Exception:
+                pass
+            account()
+            i += 1
+        p = big_small_ineq(r, f"m{len(m1_posts)}")
+        s, extra = post(m1, p)
+        m1_posts.append((p, s, extra))
+        now = [m for m in BIG_MARKS if m < st["peak"]]
+        if len(now) > len(passed):
+            passed = now
+            check_m1([len(m1_posts) - 1], f"past {passed[-1]}")
+            check_fresh(f"past {passed[-1]}", k)
+        elif k % 16 == 0:
+            check_fresh(f"chunk {k}", k)
+        k += 1
+    # 3. at the end: every inequality M1 posted, and one more fresh manager
+    ok = check_m1(range(n_first, len(m1_posts)), "end")
+    check_fresh("end", k)
+    obs = {"status": status, "checks": checks, "solve": ok, "memlen": len(pb.memory), "made": st["made"],
+           "peak": st["peak"], "store_shrank": st["shrunk"], "chunks": k, "m1_posts": len(m1_posts),
+           "m1_clauses": len(m1.clauses), "m1_codified": len(m1.codified), "refused_unchanged": [],
+           "mmap_ok": len(pb.mmap) == len(pb.memory) - 2}
+    if ok:
+        obs["m1_model_ok"] = [all(m1.value(Literal(PRE + t[0])) in (0, 1) for t in p["lt"]) and
+                              holds(p, {t[0]: bool(m1.value(Literal(PRE + t[0]))) for t in p["lt"]})
+                              for p, s, _ in m1_posts if s == "A"]
+    # the store goes back to its import-time content (a million tuples are not kept alive for the next case)
+    del pb.memory[2:]
+    pb.mmap.clear()
+    return obs
+
+
+def big_oracle(case, obs):
+    """Each manager's inequalities are over variables of their own and each is satisfiable, so an assignment of the
+    variables of ONE posted inequality extends to a model of the manager's CNF iff it satisfies that inequality."""
+    if any(s != "A" for s in obs["status"]):
+        return "refused: a >= inequality with positive coefficients was refused"
+    for c in obs["checks"]:
+        p = c["p"]
+        who = (f"the long-lived manager (its post #{c['post']})" if c["mgr"] == "M1" else "a fresh manager") + \
+              f" with {c['memlen']} nodes in the process-wide store ({c['at']})"
+        if not c["solve"]:
+            return f"solve: solve() reports unsatisfiable for {who} although every posted inequality is satisfiable " \
+                   f"and they share no variable"
+        vs = [t[0] for t in p["lt"]]
+        for bits, extd in c["ext"]:
+            a = dict(zip(vs, bits))
+            h = holds(p, a)
+            if extd and not h:
+                return (f"extend: assignment {a} extends to a model of the generated CNF but violates the accepted "
+                        f"constraint [{describe(p)}] posted by {who}")
+            if h and not extd:
+                return (f"extend: assignment {a} satisfies every accepted constraint but does not extend to a model of "
+                        f"the generated CNF; [{describe(p)}] posted by {who}")
+        if c.get("model") is not None:
+            m = c["model"]
+            if any(m[v] not in (0, 1) for v in vs) or not holds(p, {v: bool(m[v]) for v in vs}):
+                return f"solve: the model exposed by value() {m} violates the accepted constraint [{describe(p)}] ({who})"
+    if obs["solve"] and not all(obs.get("m1_model_ok", [])):
+        return "solve: the model exposed by value() of the long-lived manager violates one of its accepted constraints"
+    return None
+
+
+BIG_MODEL_SAMPLE = 96
+
+
+def big_to_coq(case, obs):
+    """The store is far too big to be handed to vm_compute, so this stream uses the semantic part of the comparison
+    only: for a sample of the checked posts, the model run of that post from the EMPTY store must accept it and predict
+    exactly the observed set of extendable assignments (C07_post_exact / C07_post_span: the set does not depend on
+    the store, nor on what the manager posted before over other variables)."""
+    cs = [c for c in obs["checks"] if c["ext"] is not None and c["norm"] is not None]
+    marks = [c for c in cs if c["at"].startswith("past") or c["at"] == "end" and c["mgr"] == "fresh"]
+    rest = [c for c in cs if c not in marks]
+    step = max(1, len(rest) // max(1, BIG_MODEL_SAMPLE - len(marks)))
+    parts = []
+    for c in marks + rest[::step]:
+        p = c["p"]
+        names = [PRE + t[0] for t in p["lt"]]
+        posts = glist([f"(PNewVar {gstr(n)})" for n in names] + [gpost(p, c["norm"])])
+        o = f"(mkObs [] [] 0 [] [] {glist(['Accepted'] * (len(names) + 1))})"
+        sem = gsem({"extendable": c["ext"], "users": names}, names)
+        parts.append(f"c07_check [] {posts} {o} {sem}")
+    return " && ".join(f"({x})" for x in parts) if parts else "false"
+
+
+def shrink_big(case):
+    if case["target"] > 4096:
+        yield dict(case, target=case["target"] // 2)
+
+
+# --------------------------------------------------------------------------
 # direct oracle: the property as stated, on the implementation's own output
 # --------------------------------------------------------------------------
 def litv(a, v, s):
@@ -916,6 +1155,8 @@ def describe(p):
 def oracle(case, obs):
     if is_dag(case):
         return dag_oracle(case, obs)
+    if is_big(case):
+        return big_oracle(case, obs)
     posts = case["posts"]
     if not all(obs["refused_unchanged"]):
         return "refused: a refused constraint changed the manager or the diagram store"
@@ -1007,6 +1248,9 @@ def shrink(case):
     if is_dag(case):
         yield from shrink_dag(case)
         return
+    if is_big(case):
+        yield from shrink_big(case)
+        return
     posts, hist = case["posts"], case.get("history", [])
     if hist:
         yield dict(case, history=[])
@@ -1035,6 +1279,8 @@ def shrink(case):
 
 # --------------------------------------------------------------------------
 def nontrivial(case):
+    if is_big(case):
+        return True
     if is_dag(case):
         # an inequality is posted after another object was derived from one of the objects it was built from
         steps = case["ops"]
@@ -1083,7 +1329,12 @@ def run(ctx, out, replay=None):
                 "groups (k up to 32) or unit-coefficient inequalities bounded near an extreme, checked on the "
                 "assignments around the boundary of each constraint.  Variable names also come from pools of names that "
                 "are prefixes of each other (x, x1, x10, x_1), look like the internal ones (aux, robdd_x, def_), are "
-                "digits (registered through newvar(int) / newvar(float)) or non-ASCII")
+                "digits (registered through newvar(int) / newvar(float)) or non-ASCII. "
+                "BIG STORE (quick: 7*10^4 and 2^20+4096 nodes; thorough: 13 sizes up to 2^21): a long-lived manager "
+                "first fills ids 2..2*chunk, then throw-away managers grow the store chunk by chunk (1500-3000 nodes; "
+                "many small inequalities over fresh variables - the cheapest way, 60k nodes/s); after every chunk the "
+                "long-lived manager posts another non-clause inequality, past every power of two / of ten and every "
+                "16th chunk a fresh manager posts one; every posted inequality is checked by enumeration")
     cases = []
     if replay and "case" in replay:
         cases.append(fr.unjson(replay["case"]))
@@ -1093,12 +1344,26 @@ def run(ctx, out, replay=None):
         cases.append(gen_dag_case(ctx.rng, big=True) if k == 11 else
                      gen_wide_case(ctx.rng) if k % 200 == 13 else
                      gen_dag_case(ctx.rng) if k % 3 == 0 else gen_case(ctx.rng))
+    # the SIZE of the process-wide store: once per quick run past 2^20 nodes (and once past 2^16); thorough: past
+    # 2^21, 2^20, 10^6 and ten smaller ones.  A separate generator: the cases above do not depend on it
+    import random
+    brng = random.Random(ctx.rng.randrange(1 << 30))
+    bt = [70000, (1 << 20) + 4096] if ctx.quick() else \
+        [3000, 5000, 12000, 40000, 70000, 70000, 110000, 140000, 270000, 530000, 10 ** 6 + 8192, (1 << 20) + 8192,
+         (1 << 21) + 8192]
+    cases += [gen_big_case(brng, t) for t in bt]
     stats = {"refused_posts": 0, "cases_building_nodes": 0, "cases_reusing_earlier_nodes": 0, "unsat_instances": 0,
              "max_initial_memory": 0, "max_new_nodes": 0, "nodes_codified": 0,
              "ineq_via_diagram": 0, "ineq_as_clause_or_tautology": 0}
 
     def run_counted(case):
         obs = run_impl(case)
+        if is_big(case):
+            stats["bigstore_cases"] = stats.get("bigstore_cases", 0) + 1
+            stats["bigstore_max_nodes"] = max(stats.get("bigstore_max_nodes", 0), obs["peak"])
+            stats["bigstore_checked_posts"] = stats.get("bigstore_checked_posts", 0) + len(obs["checks"])
+            stats["bigstore_store_shrank"] = stats.get("bigstore_store_shrank", 0) + obs["store_shrank"]
+            return obs
         stats["refused_posts"] += obs["status"].count("R")
         stats["cases_building_nodes"] += 1 if obs["newmem"] else 0
         stats["cases_reusing_earlier_nodes"] += 1 if any(2 <= i < 2 + len(obs["mem0"]) for i in obs["codified"]) else 0
@@ -1123,6 +1388,9 @@ def run(ctx, out, replay=None):
     out.extra["c07_stats"] = stats
     kinds = {}
     for c in cases:
+        if is_big(c):
+            kinds["bigstore"] = kinds.get("bigstore", 0) + 1
+            continue
         if is_dag(c):
             for st in c["ops"]:
                 kk = "dag:" + st[0] + ("/dec" if st[0] == "post" and st[2] else "")
